@@ -5,6 +5,7 @@
 import PercevalModel.Lemmas.C10
 import PercevalModel.Lemmas.C10More
 import PercevalModel.Lemmas.C10Ext
+import PercevalModel.Lemmas.C10Hist
 import PercevalModel.Num.GQ
 
 open Matrix
@@ -2266,5 +2267,185 @@ example :
       .error .runtime ∧
     exObs (compose .all true true { exLp with ps := some (.cond [1, 3] .eq 0) } exRp (.ofInt 1) true) =
       .error .assertion := by decide
+
+/-! # Extension 3: the life of a processor (`Model/C10Hist.lean`)
+
+The composition theorems above assume of the left processor that its bookkeeping is well formed (`heralds` is the
+list of herald ports, herald ports are one-mode ports on modes that are not connectible, one mode type per mode,
+ports do not overlap).  Below these facts are proved for EVERY processor obtained from `Processor(backend, m)` /
+`Processor(backend)` by any sequence of successful `add_herald`, `add_port`, `remove_port`, `add(mode, Detector)`,
+`set_postselection` and `add(mapping, component-or-processor, keep_port)` calls — in the repaired model
+(`fixM0 = true`); for the code as found (`self.m == 0` at the top of `Experiment.add`) the statement is false, with a
+proved counter-example. -/
+
+/-- one accepted `add` (with the repaired prelude) keeps the bookkeeping invariant -/
+theorem addObj_inv (e e' : Exp) (r : Side) (raw : RawMap) (keep : Bool) (hi : ExpInv e)
+    (hrh : r.comp = false → r.heralds = heraldsOf r.outp)
+    (h : addObj true e r raw keep = .ok e') : ExpInv e' := by
+  unfold addObj at h
+  split at h
+  · cases h
+  · rename_i e1 h1
+    obtain ⟨hi1, -, -, -, -⟩ := defaultM_inv e e1 _ hi h1
+    split at h
+    · cases h
+    · rename_i res hres
+      cases h
+      have hl : e1.side.conn.length = e1.side.cs := by
+        show (e1.mt.map MT.isPhot).length = e1.cs
+        rw [List.length_map, hi1.cs_eq]
+      obtain ⟨-, hheq, hresv⟩ := compose_keeps_heralds_reserved .all true true e1.side r raw keep res hl hrh
+        hi1.reserved hres
+      obtain ⟨hcs, hconn⟩ := compose_conn .all true true e1.side r raw keep res hres
+      obtain ⟨hdI, hdO⟩ := ports_stay_disjoint .all true true e1.side r raw keep res hi1.disjI hi1.disjO hres
+      have hlen1 := hi1.len
+      have hcs1 : e1.side.cs = e1.mt.length := hi1.cs_eq
+      have hcs' : (e1.after r res).cs = res.cs ∧ (e1.after r res).mt.map MT.isPhot = res.conn ∧
+          e1.mt.length ≤ (e1.after r res).mt.length ∧
+          ((e1.after r res).nmoi + ((e1.after r res).nher : Int) = ((e1.after r res).mt.length : Int)) := by
+        rw [hcs, hconn]
+        unfold Exp.after Exp.cs csAfter connAfter
+        cases hc : r.comp with
+        | true =>
+          simp only [if_true]
+          exact ⟨rfl, rfl, le_refl _, hlen1⟩
+        | false =>
+          simp only [Bool.false_eq_true, if_false]
+          refine ⟨?_, map_isPhot_append_heralds _ _, by simp, by simp; push_cast; omega⟩
+          show (e1.nmoi + ((e1.nher + r.heralds.length : Nat) : Int)).toNat = e1.cs + r.heralds.length
+          unfold Exp.cs; push_cast; omega
+      obtain ⟨e1cs, e1conn, e1le, e1len⟩ := hcs'
+      refine ⟨e1len, ?_, ?_, hdI, hdO⟩
+      · show HeraldPortsReserved (e1.after r res).cs ((e1.after r res).mt.map MT.isPhot) res.outp
+        rw [e1cs, e1conn]; exact hresv
+      · intro x hx
+        replace hx : x ∈ heraldsOf res.outp := hx
+        rw [← hheq] at hx
+        cases hc : r.comp with
+        | true =>
+          obtain ⟨-, hh, -⟩ := heralds_unchanged_component .all true true e1.side r raw keep res hc rfl
+            (HeraldPortsReserved.covered hi1.reserved) hres
+          rw [hh] at hx
+          exact lt_of_lt_of_le (hi1.inside x hx) e1le
+        | false =>
+          obtain ⟨-, hh, -⟩ := heralds_appended .all true true e1.side r raw keep res hc rfl
+            (HeraldPortsReserved.covered hi1.reserved) (hrh hc) hres
+          rw [hh] at hx
+          rcases List.mem_append.1 hx with hx | hx
+          · exact lt_of_lt_of_le (hi1.inside x hx) e1le
+          · obtain ⟨i, hi', e''⟩ := List.mem_iff_getElem.1 hx
+            simp only [List.getElem_zipWith, List.getElem_range] at e''
+            simp only [List.length_zipWith, List.length_range] at hi'
+            have hx1 : x.1 = e1.side.cs + i := (congrArg Prod.fst e'').symm
+            have : (e1.after r res).mt.length = e1.mt.length + r.heralds.length := by
+              unfold Exp.after; simp [hc]
+            rw [hx1, this, hcs1]; omega
+
+theorem stepH_inv (e e' : Exp) (op : HOp) (hi : ExpInv e) (hok : op.rightOK)
+    (h : stepH true e op = .ok e') : ExpInv e' := by
+  cases op with
+  | herald mode expected name => exact addHerald_inv e e' mode expected name hi h
+  | port mode size name loc => exact addPort_inv e e' mode size name loc hi h
+  | rmport mode loc => exact removePort_inv e e' mode loc hi h
+  | det mode name => exact addDet_inv e e' mode name hi h
+  | setps ps => cases h; exact setps_inv e ps hi
+  | add r raw keep => exact addObj_inv e e' r raw keep hi hok h
+
+/-- **the bookkeeping invariant holds after every history**: whatever sequence of successful public calls built the
+processor (repaired prelude of `add`) -/
+theorem history_invariant (m : Option Nat) (ops : List HOp) (e : Exp)
+    (hok : ∀ op ∈ ops, op.rightOK) (h : history true m ops = .ok e) : ExpInv e := by
+  unfold history at h
+  split at h
+  · cases h
+  · rename_i e0 h0
+    have hi0 := new_inv m e0 h0
+    clear h0
+    induction ops generalizing e0 with
+    | nil => cases h; exact hi0
+    | cons op rest ih =>
+      unfold runH at h
+      split at h
+      · cases h
+      · rename_i e1 h1
+        exact ih (fun o ho => hok o (List.mem_cons_of_mem _ ho)) e1 h
+          (stepH_inv e0 e1 op hi0 (hok op List.mem_cons_self) h1)
+
+/-- **the hypotheses of the composition theorems, discharged**: for the processor any history leaves behind, seen as
+the LEFT side of the next `add`: one availability flag per mode, `heralds` is the list of herald ports, herald ports
+are one-mode ports on modes that are not connectible, no two ports overlap on either side, and every mode listed in
+`heralds` is a mode of the circuit that is not connectible -/
+theorem history_left_wf (m : Option Nat) (ops : List HOp) (e : Exp)
+    (hok : ∀ op ∈ ops, op.rightOK) (h : history true m ops = .ok e) :
+    e.side.conn.length = e.side.cs ∧ e.side.heralds = heraldsOf e.side.outp ∧
+    HeraldPortsReserved e.side.cs e.side.conn e.side.outp ∧
+    PortsDisjoint e.side.inp ∧ PortsDisjoint e.side.outp ∧
+    (∀ hm ∈ e.side.heralds, hm.1 < e.side.cs ∧ connectible e.side.cs e.side.conn (hm.1 : Int) = false) := by
+  have hi := history_invariant m ops e hok h
+  refine ⟨?_, rfl, hi.reserved, hi.disjI, hi.disjO, ?_⟩
+  · show (e.mt.map MT.isPhot).length = e.cs
+    rw [List.length_map, hi.cs_eq]
+  · intro hm hmem
+    obtain ⟨p, hpo, hph, hs, -⟩ := mem_heraldsOf hmem
+    refine ⟨?_, ?_⟩
+    · show hm.1 < e.cs
+      rw [hi.cs_eq]; exact hi.inside hm hmem
+    · rw [← hs]; exact (hi.reserved p hpo hph).2
+
+/-- `heralds_appended` without hypotheses on the left processor: it is the result of ANY history -/
+theorem heralds_appended_after_history (m : Option Nat) (ops : List HOp) (e : Exp)
+    (hok : ∀ op ∈ ops, op.rightOK) (hh : history true m ops = .ok e)
+    (f1 : RFlags) (f2 f3 : Bool) (r : Side) (raw : RawMap) (keep : Bool) (res : Result)
+    (hr : r.comp = false) (hrh : r.heralds = heraldsOf r.outp)
+    (h : compose f1 f2 f3 e.side r raw keep = .ok res) :
+    res.cs = e.cs + r.heralds.length ∧
+    res.heralds = heraldsOf e.outp ++
+      (List.range r.heralds.length).zipWith (fun i h => (e.cs + i, h.2)) r.heralds ∧
+    res.dets = e.dets ++ r.heralds.map (fun h => r.dets.getD h.1 none) ∧
+    (∀ hm ∈ res.heralds, connectible res.cs res.conn (hm.1 : Int) = false) := by
+  obtain ⟨hl, -, hres, -, -, -⟩ := history_left_wf m ops e hok hh
+  obtain ⟨a, b, c⟩ := heralds_appended f1 f2 f3 e.side r raw keep res hr rfl
+    (HeraldPortsReserved.covered hres) hrh h
+  exact ⟨a, b, c, result_heralds_reserved f1 f2 f3 e.side r raw keep res hl (fun _ => hrh) hres h⟩
+
+/-- a processor whose two modes were both declared heralds, then `add(0, <two-mode component>)` -/
+def exHistOps : List HOp :=
+  [.herald 0 1 none, .herald 1 0 none,
+   .add ⟨true, 2, 2, [], [], [], [], [], [], [], none⟩ (.ofInt 0) true]
+
+/-- what the two models answer on it: the code as found accepts the component ON the two herald modes, reports a
+circuit of 4 modes and both herald modes connectible; repaired, the add is refused (`UnavailableModeException`) -/
+theorem exHist_outcomes :
+    ((history false (some 2) exHistOps).toOption.map fun e => (e.cs, e.side.conn, heraldsOf e.outp)) =
+      some (4, [true, true], [(0, 1), (1, 0)]) ∧
+    ((history true (some 2) exHistOps).toOption.map fun e => e.cs) = none ∧
+    ((history true (some 2) (exHistOps.take 2)).toOption.map fun e => (e.cs, e.side.conn, heraldsOf e.outp)) =
+      some (2, [false, false], [(0, 1), (1, 0)]) := by decide
+
+/-- **the code as found violates it**: with `self.m == 0` as the test for "number of modes never given", a processor
+all of whose modes are heralds accepts a component on its herald modes — a mode listed in `heralds` is connectible
+after a history of successful calls -/
+theorem history_heralds_reserved_fails_on_current_code :
+    ¬ (∀ (m : Option Nat) (ops : List HOp) (e : Exp), (∀ op ∈ ops, op.rightOK) → history false m ops = .ok e →
+        ∀ hm ∈ e.side.heralds, connectible e.side.cs e.side.conn (hm.1 : Int) = false) := by
+  intro H
+  have h1 := exHist_outcomes.1
+  cases hh : history false (some 2) exHistOps with
+  | error x => rw [hh] at h1; cases h1
+  | ok e =>
+    rw [hh] at h1
+    simp only [Except.toOption, Option.map_some, Option.some.injEq, Prod.mk.injEq] at h1
+    obtain ⟨hcs, hconn, hher⟩ := h1
+    have hok : ∀ op ∈ exHistOps, op.rightOK := by
+      intro op hop
+      simp only [exHistOps, List.mem_cons, List.not_mem_nil, or_false] at hop
+      rcases hop with rfl | rfl | rfl
+      · trivial
+      · trivial
+      · intro hc; cases hc
+    have := H (some 2) exHistOps e hok hh (0, 1) (by show (0, 1) ∈ heraldsOf e.outp; rw [hher]; simp)
+    have hc : e.side.cs = 4 := hcs
+    rw [hc, hconn] at this
+    revert this; decide
 
 end PM.C10
